@@ -493,7 +493,7 @@ func oracleMetric(h *mhist) ([]vk.Violation, map[string]bool) {
 			case c.Start > st.dr || after:
 				cl["collect_after_reader_shutdown"] = true
 				if !isReaderShutdown(c.Err) {
-					bad("collect_after_shutdown", "%s: Collect on reader %d after its own (t=%d) or the provider's (t=%d) Shutdown had returned gave %v, documented: ErrReaderShutdown", c, c.X, st.dr, d, c.Err)
+					bad("collect_after_shutdown", "%s: Collect on reader %d after its own (%s) or the provider's (%s) Shutdown had returned gave %v, documented: ErrReaderShutdown", c, c.X, tstr(st.dr), tstr(d), c.Err)
 				}
 			case c.End < st.any0 && c.End < e0 && c.C == 0 && c.Err == nil:
 				cl["collect_while_up_ok"] = true
@@ -621,8 +621,7 @@ func genReaders(t *rapid.T) []int {
 
 func genMetricSeq(t *rapid.T) MProg {
 	p := MProg{Readers: genReaders(t)}
-	minLen := rapid.SampledFrom([]int{1, 1, 10, 20}).Draw(t, "min_ops")
-	p.Gs = [][]MOp{rapid.SliceOfN(genRawMOp(false), minLen, 50).Draw(t, "ops")}
+	p.Gs = [][]MOp{genChunked(t, genRawMOp(false), 15)}
 	normaliseM(&p)
 	return p
 }
@@ -658,7 +657,7 @@ func runMetricSeq(p MProg) ([]vk.Violation, vk.Info) {
 func TestMetricLifecycle(t *testing.T) {
 	vk.Run(t, vk.Spec[MProg]{
 		Property: "C15", Check: "metric_lifecycle",
-		Rule: "generated op lists (1-50 ops: Meter / create Int64Counter / Add / reader.Collect / provider ForceFlush / provider Shutdown / reader.Shutdown directly, with live or already-cancelled contexts, repeated) on a MeterProvider with 0-3 readers drawn from ManualReader, PeriodicReader(recording exporter, 1h) and PeriodicReader(recording exporter, 1ms); " +
+		Rule: "generated op lists (1-60 ops: Meter / create Int64Counter / Add / reader.Collect / provider ForceFlush / provider Shutdown / reader.Shutdown directly, with live or already-cancelled contexts, repeated) on a MeterProvider with 0-3 readers drawn from ManualReader, PeriodicReader(recording exporter, 1h) and PeriodicReader(recording exporter, 1ms); " +
 			"non-trivial = at least one reader, a provider Shutdown with a live context returned nil/ErrReaderShutdown and an Add / instrument creation / Collect follows it; distinct = distinct case encodings",
 		Quick: 3000, Thorough: 40000,
 		Gen: genMetricSeq, Run: runMetricSeq,
